@@ -9,10 +9,14 @@
   accepted by `parseTokens` with exactly the derived tree.  `sound_*`: the converse — whatever the parser
   accepts (with any fuel) the relation derives, with exactly the returned tree (SqLemmas/ParseSound).  Hence
   `parser_accepts_exactly_the_grammar`: parseTokens ts = ok (code out) ↔ RCode [] ts out.
+  `accepted_is_derivable_in_published_grammar` (SqLemmas/ParseCFG): the levelled relation — hence everything the parser
+  accepts — lies inside the context-free language of the 77 productions generated from rules.py.  The converse inclusion
+  is false by design (the operator table rejects `a < b < c`) and by the findings D7 / D8.
 -/
 import Sq.Proto
 import SqLemmas.ParseComplete
 import SqLemmas.ParseSound
+import SqLemmas.ParseCFG
 namespace SqProps.C06
 open Sq
 
@@ -113,6 +117,16 @@ theorem rejected_iff_not_derivable (ts : List Token) :
     | ok tree =>
       obtain ⟨out, _, hr⟩ := sound hp
       exact absurd ⟨out, hr⟩ hn
+
+/-- **[B] accepted ⇒ derivable in the published grammar**: every token list the parser accepts is a sentence of the
+    context-free grammar whose productions are `Sq.cfg` — by `SqTie.cfg_is_generated` exactly the 77 productions PLY
+    builds from /repo's rules.py in this run (`Der "S'"` = derivable from the start symbol; `tys` = the token types) -/
+theorem accepted_is_derivable_in_published_grammar {ts : List Token} {tree : Op} (h : parseTokens ts = .ok tree) :
+    Der "S'" (tys ts) := accepted_is_grammatical h
+
+/-- … in particular everything the levelled relation derives (it adds only the operator table's choices) -/
+theorem levelled_relation_refines_grammar {ts : List Token} {out : List Op} (h : RCode [] ts out) :
+    Der "S'" (tys ts) := relation_derives_grammar h
 
 /-- **the tree is unique**: the levelled grammar is unambiguous — two derivations of the same token list as a
     program derive the same tree (both are what the deterministic parser returns) -/
